@@ -226,17 +226,25 @@ def install():
     sys.meta_path.insert(0, _finder)
 
 
+_pristine = {}
+
+
 def load_pristine(modname):
-    """a second, untouched copy of a repo module (for validating the rewrite on concrete values)"""
-    import importlib.util
-    spec = importlib.machinery.PathFinder.find_spec(modname.split('.')[-1],
-                                                    [_parent_path(modname)])
-    src = spec.loader.get_data(spec.origin)
-    code = compile(src, spec.origin, 'exec', dont_inherit=True)
-    mod = type(sys)('_pristine_.' + modname)
-    mod.__file__ = spec.origin
+    """a second, untouched copy of a repo module (the loop-style helpers path-wise; validating the rewrite)"""
+    if modname in _pristine:
+        return _pristine[modname]
+    import os
+    path = os.path.join('/repo', *modname.split('.')) + '.py'
+    with open(path, 'rb') as f:
+        src = f.read()
+    code = compile(src, path, 'exec', dont_inherit=True)
+    name = '_pristine_.' + modname
+    mod = type(sys)(name)
+    mod.__file__ = path
     mod.__package__ = modname.rpartition('.')[0]
+    sys.modules[name] = mod
     exec(code, mod.__dict__)
+    _pristine[modname] = mod
     return mod
 
 
